@@ -90,3 +90,18 @@ package resolver
 //@   opt auto-counters 1
 //@   prop C16
 
+
+// C11: findInvalidSegment skips the first path segment. That is PACKAGE_TARGET_RESOLVE's rule for the TARGET ("…after
+// the first '.' segment"); for the matched subpath Node checks every segment. So the only value that may be handed
+// to findInvalidSegment unmodified is the target string; a subpath must be checked from its first segment on.
+//@ flow segment-check-covers-whole-subpath C11: func=(resolverQuery).esmPackageTargetResolve ; in=resolver ; site=call findInvalidSegment ; scenario=exports_subpath_first_segment ; argpath=0:target.strData OR "./"+subpath
+
+// C11: PACKAGE_TARGET_RESOLVE, array targets: "for each targetValue … if resolved is undefined, continue the loop".
+// An element that yields undefined in ANY flavour (a condition object none of whose conditions applies reports
+// pjStatusUndefinedNoConditionsMatch) must be skipped, so an array target never returns that status itself: its
+// own "nothing matched" answer is the plain undefined (or the last null / invalid-target exception).
+//@ func (resolverQuery).esmPackageTargetResolve
+//@   arith int
+//@   prop C11
+//@   ensures array-skips-undefined-elements: target.kind == pjArray ==> result1 != pjStatusUndefinedNoConditionsMatch
+//@   loop 3 invariant lastException != pjStatusUndefinedNoConditionsMatch
